@@ -47,7 +47,22 @@ func (mb *mbox) newMessage() (*Message, error) {
 	}
 	date := time.Now()
 	id := generateID(date)
+	// The counter behind generateID starts over with the process: never hand out the ID of a
+	// message that is already in this mailbox.
+	for mb.hasID(id) {
+		id = generateID(date)
+	}
 	return &Message{mailbox: mb, Fid: id, Fdate: date}, nil
+}
+
+// hasID reports whether the loaded index contains a message with the given ID.
+func (mb *mbox) hasID(id string) bool {
+	for _, m := range mb.messages {
+		if m.Fid == id {
+			return true
+		}
+	}
+	return false
 }
 
 // Mailbox returns the name of the mailbox this message resides in.
